@@ -108,6 +108,21 @@ def on_apply(rows) -> None:
 
 POISON = -777  # a feature value the model refuses (an in-pipeline, platform-level failure of that request only)
 FANOUT = {'p1', 'p2'}  # projects whose apply graph fans out (shared source value -> two branches -> join)
+HEAD_FANOUT = {'p2'}  # ...right at the head of the table: no source transform, the feed output itself is shared
+
+
+def rows(data) -> tuple:
+    """Plain tuples of rows whatever the driver delivered (frame, array of records, ...)."""
+    if hasattr(data, 'to_rows'):
+        data = data.to_rows()
+    if hasattr(data, 'itertuples'):
+        return tuple(tuple(r) for r in data.itertuples(index=False))
+    out = []
+    for row in data:
+        if hasattr(row, 'tolist'):
+            row = row.tolist()
+        out.append(tuple(row) if isinstance(row, (list, tuple)) else (row,))
+    return tuple(out)
 
 
 def answer(state: int, bias: int, row) -> int:
@@ -137,7 +152,7 @@ def write_project(target: pathlib.Path, project: str, release: str) -> prjmod.Pa
     pkg = target / name
     pkg.mkdir(parents=True)
     (pkg / '__init__.py').write_text('')
-    (pkg / 'source.py').write_text(textwrap.dedent('''
+    (pkg / 'source.py').write_text(textwrap.dedent(f'''
         from forml import project
         from forml.io import layout
         from forml.pipeline import wrap
@@ -148,8 +163,8 @@ def write_project(target: pathlib.Path, project: str, release: str) -> prjmod.Pa
         def as_tuple(data: layout.RowMajor) -> layout.RowMajor:
             return tuple(tuple(r) for r in data)
 
-        project.setup(project.Source.query(serving.Req.select(serving.Req.key, serving.Req.val),
-                                           serving.Req.label) >> as_tuple())
+        SOURCE = project.Source.query(serving.Req.select(serving.Req.key, serving.Req.val), serving.Req.label)
+        project.setup(SOURCE{'' if project in HEAD_FANOUT else ' >> as_tuple()'})
     '''))
     (pkg / 'pipeline.py').write_text(textwrap.dedent(f'''
         from forml import project
@@ -163,16 +178,17 @@ def write_project(target: pathlib.Path, project: str, release: str) -> prjmod.Pa
         def model(state, features, labels):
             if state is None:
                 state = BASE
-            return state + sum(labels)
+            return state + sum(int(v) for v in labels)
 
         @{'model.apply' if project in FANOUT else 'wrap.Operator.apply'}
         {'def' if project in FANOUT else '@model.apply\n        def'} model(state, rows):
+            rows = serving.rows(rows)
             serving.on_apply(rows)
             return [serving.answer(state, BIAS, r) for r in rows]
 
         @wrap.Actor.apply
         def keys(rows):
-            return [r[0] for r in rows]
+            return [r[0] for r in serving.rows(rows)]
 
         @wrap.Actor.apply
         def combine(predictions, keys):
